@@ -104,8 +104,28 @@ Proof. intros A Aok g w mode root seed ord1 ord2 z1 z2 b Hwf Hok Hreq. apply ord
 Goal True. idtac "ASSUMPTIONS order_independent". Abort.
 Print Assumptions order_independent.
 
-(* Renumbering the tensors (building independent sub-expressions in a different order) does not change any
-   gradient: see relabel_invariant below. *)
+(* ... nor on the order in which independent sub-expressions were built: renumbering the tensors of the recorded
+   graph by any injective [pi] that preserves operands, flags and local derivatives (both numberings being
+   construction orders, i.e. well-formed) gives every tensor the same gradient buffer. *)
+Theorem construction_order_independent :
+  forall (A : galg), galg_ok A ->
+  forall g g' (pi : nat -> nat) (w w' : weights A) mode root seed (b b' b1 b1' : bufs A) l l',
+    wf g -> wf g' -> (forall n, node_ok (getn g n)) -> (forall n, node_ok (getn g' n)) ->
+    (forall x y, x < length g -> y < length g -> pi x = pi y -> x = y) ->
+    (forall n, n < length g ->
+       children (getn g' (pi n)) = map pi (children (getn g n)) /\
+       req (getn g' (pi n)) = req (getn g n) /\
+       has_fn (getn g' (pi n)) = has_fn (getn g n) /\
+       retain (getn g' (pi n)) = retain (getn g n)) ->
+    (forall n k, n < length g -> w' (pi n) k = w n k) ->
+    (forall n, n < length g -> b' (pi n) = b n) ->
+    root < length g ->
+    backward A g w mode root seed b = Some (b1, l) ->
+    backward A g' w' mode (pi root) seed b' = Some (b1', l') ->
+    forall v, v < length g -> b1' (pi v) = b1 v.
+Proof. exact relabel_invariant. Qed.
+Goal True. idtac "ASSUMPTIONS construction_order_independent". Abort.
+Print Assumptions construction_order_independent.
 
 (* What the op wrappers build satisfies the per-node hypotheses ([op_node] is compared with the real tensors by
    the correspondence check). *)
@@ -138,6 +158,14 @@ Example diamond :
   let w := wtab [[]; [2]; [3]; [5; 7]]%Z in
   wfb g = true /\ pathsum g w 3 0 = 31%Z /\
   run_obs g w false 3 1%Z nob = Some ([Some 31; None; None; Some 1]%Z, [3; 2; 1]).
+Proof. vm_compute. auto. Qed.
+
+(* y = a*b + c built as (a*b first, then c) and as (c first, then a*b): pi swaps the numbering *)
+Example two_construction_orders :
+  let g  := [leafn; opn [0]; opn [0]; opn [1; 2]] in
+  let g' := [leafn; opn [0]; opn [0]; opn [2; 1]] in
+  run_obs g (wtab [[]; [2]; [3]; [5; 7]]%Z) false 3 1%Z nob = Some ([Some 31; None; None; Some 1]%Z, [3; 2; 1]) /\
+  run_obs g' (wtab [[]; [3]; [2]; [5; 7]]%Z) false 3 1%Z nob = Some ([Some 31; None; None; Some 1]%Z, [3; 1; 2]).
 Proof. vm_compute. auto. Qed.
 
 (* the same operand twice: y = x * x at x = 4 ; then z = y * y *)
